@@ -948,23 +948,3 @@ Section NDictLawProofs.
     destruct (ndict_law_step m o I) as [H1 H2]. rewrite H1, (IH _ _ H2). reflexivity.
   Qed.
 End NDictLawProofs.
-
-(* ================= default values (first read of a never-assigned trait) ================= *)
-Lemma default_list_valid vk mn mx d l :
-  default_list vk mn mx d = Ok l -> law_default (DfList vk mn mx d (Ok l)) = [].
-Proof.
-  unfold default_list, law_default, start_ok. cbn [list_step].
-  destruct (len_ok mn mx (zlen d)) eqn:L; cbn [andb]; [|discriminate].
-  destruct (vld_all (vld_of vk) d) as [ys|] eqn:V; cbn; [|discriminate]. intros H. inversion H; subst.
-  assert (list_ok (dom_of vk) mn mx l = true) as ->; [|reflexivity].
-  unfold list_ok. apply andb_true_iff. split.
-  - apply forallb_Forall. eapply (vld_all_P (vld_of vk) (fun x => dom_of vk x = true)); [|exact V].
-    intros x y Hv. destruct vk; cbn in *.
-    + reflexivity.
-    + destruct ((0 <=? x) && (x <? 100)) eqn:E; inversion Hv; subst. exact E.
-    + destruct ((0 <=? x) && (x <? 100)) eqn:E; [inversion Hv; subst; exact E|].
-      destruct ((100 <=? x) && (x <? 200)) eqn:E2; [inversion Hv; subst; lia|].
-      destruct ((300 <=? x) && (x <? 400)) eqn:E3; inversion Hv; subst. lia.
-    + destruct ((0 <=? x) && (x <? 90)) eqn:E; inversion Hv; subst. lia.
-  - pose proof (vld_all_length (vld_of vk) d l V) as E. unfold zlen in *. rewrite E. exact L.
-Qed.
